@@ -870,7 +870,12 @@ def check_C15(ctx):
         bvv = BitVec(pdb)
         f = bvv.bv(normalise_popcount_tests(r))[0]
         exp = b_and([b_or([("b", "s", i) for i in range(64)]), b_not(b_or([("b", "s", i) for i in range(52, 64)]))])
-        rep.ob("C15.is_valid", "formula", f == exp, "is_valid is not `non-empty and no bits above the 52 card bits`: %s" % describe_formula(f), pdb.where(key))
+        okv = f == exp
+        if not okv and "top" in str(f):
+            okv = all(bool(cval(ctx.fold(r, {"s": sv}))) == (sv != 0 and sv >> 52 == 0) for sv in structured_sets(rep.seed))
+            rep.note("C15.is_valid decided by fold over structured/seeded sets (ordering comparison instead of a mask test)")
+            rep.extra["exhaustive"] = False
+        rep.ob("C15.is_valid", "formula", okv, "is_valid is not `non-empty and no bits above the 52 card bits`: %s" % describe_formula(f), pdb.where(key))
     ctx.guard("C15.ops", ops)
 
     ctx.guard("C15.peel", check_peel, ctx, "C15.peel")
